@@ -150,7 +150,7 @@ def handle : List String → String
   | "logger" :: g :: m :: ctl :: _ => loggerAnswer g.toNat! m.toNat! ctl
   | "logerr" :: _ :: missing :: present :: _ =>
     s!"ok errors={missing.toNat!} logged={missing.toNat!} whole=1 once=1 lines={2 * present.toNat!}"
-  | "closelag" :: _ => "ok lag=0"   -- the SPEC's answer (closed channel ⇒ complete status); the code's order allows lag=1
+  | "closelag" :: _ => "ok lag=0"   -- closed channel ⇒ complete status (Props: close_status_complete; the order before /repo 7025f4b allowed lag=1)
   | "sigagg" :: _ => "ok returned=1 input_exhausted=0 final_render=1 final_eq_sampled=1 whole_batches=1 late_renders=0 late_samples=0 excl_ok=1"
   | _ => "bad-op"
 
